@@ -100,6 +100,15 @@ func streamAlg(c *ctx) {
 		unprotTerm := "None"
 		if !unprotNil {
 			unprot = cose.Headers{"u": 1}
+			if c.r.intn(3) == 0 {
+				// an algorithm in the unauthenticated bucket (the key's own, or the header's) must decide nothing
+				ua := ka.alg
+				if c.r.intn(3) == 0 {
+					ua = ha.alg
+				}
+				v, _ := algValue(c, ua, c.r.intn(5))
+				unprot[iana.HeaderParameterAlg] = v
+			}
 			unprotTerm = "(Some " + qMap(unprot) + ")"
 		}
 		// ---- produce
@@ -195,10 +204,19 @@ func streamAlg(c *ctx) {
 		}
 		var cerr error
 		var decoded cose.Headers
+		// the carrier's unprotected bucket sometimes names the verifying key's algorithm: it is not authenticated and
+		// must not take part in the decision
+		unprotFor := func() cose.Headers {
+			if idx%2 == 0 {
+				return nil
+			}
+			v, _ := algValue(c, ka.alg, idx%5)
+			return cose.Headers{iana.HeaderParameterAlg: v}
+		}
 		panicked, pmsg = catch(func() {
 			switch kind {
 			case "Sign1":
-				m := &cose.Sign1Message[[]byte]{Protected: prot2, Payload: payload}
+				m := &cose.Sign1Message[[]byte]{Protected: prot2, Unprotected: unprotFor(), Payload: payload}
 				data, err = m.SignAndEncode(fakeSigner{k: mk}, nil)
 				if err == nil {
 					m2 := &cose.Sign1Message[[]byte]{}
@@ -208,7 +226,7 @@ func streamAlg(c *ctx) {
 					}
 				}
 			case "Mac0":
-				m := &cose.Mac0Message[[]byte]{Protected: prot2, Payload: payload}
+				m := &cose.Mac0Message[[]byte]{Protected: prot2, Unprotected: unprotFor(), Payload: payload}
 				data, err = m.ComputeAndEncode(fakeMACer{k: mk}, nil)
 				if err == nil {
 					m2 := &cose.Mac0Message[[]byte]{}
@@ -218,7 +236,7 @@ func streamAlg(c *ctx) {
 					}
 				}
 			case "Mac":
-				m := &cose.MacMessage[[]byte]{Protected: prot2, Payload: payload}
+				m := &cose.MacMessage[[]byte]{Protected: prot2, Unprotected: unprotFor(), Payload: payload}
 				m.AddRecipient(&cose.Recipient{Protected: cose.Headers{}, Unprotected: cose.Headers{}})
 				data, err = m.ComputeAndEncode(fakeMACer{k: mk}, nil)
 				if err == nil {
@@ -229,7 +247,7 @@ func streamAlg(c *ctx) {
 					}
 				}
 			case "Encrypt0":
-				m := &cose.Encrypt0Message[[]byte]{Protected: prot2, Payload: payload}
+				m := &cose.Encrypt0Message[[]byte]{Protected: prot2, Unprotected: unprotFor(), Payload: payload}
 				data, err = m.EncryptAndEncode(fakeEncryptor{k: mk, nsize: 12}, nil)
 				if err == nil {
 					m2 := &cose.Encrypt0Message[[]byte]{}
@@ -239,7 +257,7 @@ func streamAlg(c *ctx) {
 					}
 				}
 			case "Encrypt":
-				m := &cose.EncryptMessage[[]byte]{Protected: prot2, Payload: payload}
+				m := &cose.EncryptMessage[[]byte]{Protected: prot2, Unprotected: unprotFor(), Payload: payload}
 				m.AddRecipient(&cose.Recipient{Protected: cose.Headers{}, Unprotected: cose.Headers{}})
 				data, err = m.EncryptAndEncode(fakeEncryptor{k: mk, nsize: 12}, nil)
 				if err == nil {
@@ -259,7 +277,7 @@ func streamAlg(c *ctx) {
 		if err != nil || decoded == nil {
 			return // could not build the carrier message (e.g. unencodable header value): nothing to consume
 		}
-		line2 := fmt.Sprintf("alg-consume|kind=%s|decoded_header=%s|key=%s => ok=%v", kind, describe(map[any]any(decoded)), describe(map[any]any(k)), cerr == nil)
+		line2 := fmt.Sprintf("alg-consume|kind=%s|decoded_header=%s|key=%s|unprotected_alg=%v => ok=%v", kind, describe(map[any]any(decoded)), describe(map[any]any(k)), idx%2 != 0, cerr == nil)
 		c.addCase(fmt.Sprintf("AConsume %s %s %s", qMap(decoded), qMap(k), qB(cerr == nil)), line2)
 		if kalg != 0 {
 			want := isInt && rep != 9 && ha.alg == kalg
